@@ -50,6 +50,12 @@ type Case struct {
 	Entity     bool   `json:"entity,omitempty"` // group tag is the entity => data nodes take the sort-based group-by
 	TopN       int    `json:"top_n,omitempty"`
 	TopAsc     bool   `json:"top_asc,omitempty"`
+	Limit      uint32 `json:"limit,omitempty"`  // plan level: request limit (0 = default 100)
+	Offset     uint32 `json:"offset,omitempty"` // plan level: request offset
+	// Groups: group tag values, indexed by Row.G (default {"a","b"}).
+	Groups []string `json:"groups,omitempty"`
+	// Shape: generator of Rows/Assign/Groups for the shape families (shape.go); expanded before the case runs.
+	Shape *Shape `json:"shape,omitempty"`
 
 	pre any // explorer only: the already parsed values ([]int64 / []float64); replay parses Rows
 }
@@ -62,6 +68,14 @@ type viol struct {
 const nShards = 3
 
 var groupNames = []string{"a", "b"}
+
+// gname is the group tag value of group index g.
+func (c *Case) gname(g int) string {
+	if len(c.Groups) > 0 {
+		return c.Groups[g]
+	}
+	return groupNames[g]
+}
 
 // stats are per worker, merged at the end.
 type stats struct {
@@ -182,6 +196,11 @@ func pick[N any](vals []N, idx []int) []N {
 
 // run dispatches one case to its level; used by the explorer and by --replay.
 func run(c *Case, st *stats) []viol {
+	if c.Shape != nil && len(c.Rows) == 0 {
+		cc := *c
+		cc.Shape.expand(&cc)
+		c = &cc
+	}
 	switch c.Typ {
 	case "int":
 		return runK(intKind, c, st)
@@ -598,6 +617,8 @@ func main() {
 		defer pprof.StopCPUProfile()
 	}
 	jobs := append(jobsFor(intKind, b), jobsFor(floatKind, b)...)
+	jobs = append(jobs, shapeJobs(intKind)...)
+	jobs = append(jobs, shapeJobs(floatKind)...)
 	total := newStats()
 	var mu sync.Mutex
 	report := func(c *Case, vs []viol) {
@@ -649,7 +670,8 @@ func main() {
 			"dedup_scalar_plan_alphabet": b.dedupScalarPlan, "dedup_grouped_plan_alphabet": b.dedupGroupPlan, "plan_scalar": b.planScalar,
 			"plan_grouped": b.planGroup, "plan_grouped_small_alphabet": b.planGroupSmall, "plan_raw_top": b.planRawTop, "topq_sequences": b.topq,
 			"vec_scalar": b.vecScalar, "vec_grouped": b.vecGroup, "vec_grouped_small_alphabet": b.vecGroupSmall},
-		"shards": nShards, "replicas_per_shard": "1|2", "groups": 2, "top_n": "1..3 top and bottom",
+		"shape_families": shapeBounds(),
+		"shards":         nShards, "replicas_per_shard": "1|2", "groups": 2, "top_n": "1..3 top and bottom",
 		"int_alphabet": strs(intKind, intKind.alphabet), "float_alphabet": strs(floatKind, floatKind.alphabet),
 		"int_plan_alphabet": strs(intKind, intKind.planAlphabet), "float_plan_alphabet": strs(floatKind, floatKind.planAlphabet),
 		"int_small_alphabet": strs(intKind, intKind.smallAlphabet), "float_small_alphabet": strs(floatKind, floatKind.smallAlphabet),
